@@ -268,6 +268,7 @@ void SmootherTake::solveCircleSection(const int i_r, Vector<double>& x, Vector<d
     }
     // Move updated values to x
     std::move(temp.begin() + start, temp.begin() + end, x.begin() + start);
+    VERIF_RANGE(x.begin() + start, end - start, true);
 }
 
 void SmootherTake::solveRadialSection(const int i_theta, Vector<double>& x, Vector<double>& temp,
@@ -279,6 +280,7 @@ void SmootherTake::solveRadialSection(const int i_theta, Vector<double>& x, Vect
     radial_tridiagonal_solver_[i_theta].solveInPlace(temp.begin() + start, solver_storage.begin());
     // Move updated values to x
     std::move(temp.begin() + start, temp.begin() + end, x.begin() + start);
+    VERIF_RANGE(x.begin() + start, end - start, true);
 }
 
 // clang-format off
